@@ -4,7 +4,7 @@
 // Enumerated: every Go function reachable from the global environment, the
 // string metatable, file/coroutine/context objects and the closures library
 // functions return (found by a graph walk at check time) x all 16 subsets of
-// required flags x an IO-oriented argument pool x 9 call spellings x the two
+// required flags x an IO-oriented argument pool x 10 call spellings x the two
 // ways of entering a context (RuntimeContextDef.RequiredFlags and
 // runtime.callcontext{flags=...}).
 //
@@ -47,6 +47,7 @@ var spellings = []spelling{
 	6: {"coroutine", "coroutine"},  // inside a coroutine body
 	7: {"co-body", "coroutine"},    // f is the coroutine body
 	8: {"load", "load"},            // load("return f(...)") with f a global of the chunk
+	9: {"gc", "finalizer"},         // called by a __gc finalizer that runs inside the context when it ends
 }
 
 // ---- reference model: what the property prescribes
@@ -344,7 +345,7 @@ func main() {
 		ID:    "C08",
 		Level: "model_checking",
 		Rule: "every Go function found by walking globals, package.loaded, the string/file/context metatables and closures returned by library calls " +
-			"x 16 required-flag subsets x IO argument pool x 9 call spellings, each entered through RuntimeContextDef and through runtime.callcontext; " +
+			"x 16 required-flag subsets x IO argument pool x 10 call spellings, each entered through RuntimeContextDef and through runtime.callcontext; " +
 			"non-trivial = the property constrains the case (a required flag is undeclared, or iosafe is required); distinct = distinct observation summaries",
 		Assumptions: []string{
 			"declared flags are read from GoFunction.safetyFlags by reflection (read-only); the gate is judged against them",
@@ -564,6 +565,8 @@ func luaRepro(f *fnRec, required rt.ComplianceFlags, tp tuple, sp int) string {
 		call = "return coroutine.wrap(f)(" + args + ")"
 	case 8:
 		call = "return load(\"return f(...)\", \"=c08\", \"t\", {f = f})(" + args + ")"
+	case 9:
+		call = "-- (Go API: RuntimeContextDef{RequiredFlags, GCPolicy: IsolateGCPolicy}; in Lua a kill limit gives the context its own finalizer pool)\n  setmetatable({}, {__gc = function() print(pcall(f" + map[bool]string{true: ", ", false: ""}[args != ""] + args + ")) end})"
 	}
 	fmt.Fprintf(&sb, "print(runtime.callcontext({flags = %q}, function()\n  %s\nend))", strings.Join(required.Names(), " "), call)
 	return sb.String()
